@@ -19,7 +19,7 @@ extent-length function for writer, reader, retirement, recovery and migration); 
 followed by reserve_sector and disk_usage += and every release of an owned extent by disk_usage -=; flush_all / Drop
 persist loads of record_count / disk_usage. Not decided: the partition invariant itself at quiescent points.
 """
-DECIDED = ["a scrubbed run is released with the sum of its members' own extent lengths", "(a) who allocates / releases", "(b,c) release after durable marker and with no reader; dirty reservations only after scrub",
+DECIDED = ['journal slots alternate on every journal record so a torn write falls back to the record before it (shared with C04.position)', "a scrubbed run is released with the sum of its members' own extent lengths", "(a) who allocates / releases", "(b,c) release after durable marker and with no reader; dirty reservations only after scrub",
            "(d) one extent-length function", "(e) disk_usage accounting and what is persisted",
            'reservation word: sector bits below the flag bits for every accepted device size; flag helpers touch one bit; closed writer set',
            'allocator size index and start index are mutated for the same run (shared with C06.pair)',
@@ -504,7 +504,16 @@ def check_allocator_pair(ctx):
     C06.check_pair(ctx, "C05.allocator-pair")
 
 
+def check_journal_position(ctx):
+    """a torn journal write must fall back to the record just before it: the two slots alternate on every journal record (intent
+    and clear alike). A stale *active* intent left in the other slot makes replay mark and free extents that were reused by
+    acknowledged records since (same rule as C04.position)"""
+    from rules import C04
+    C04.check_position(ctx, "C05.journal-position")
+
+
 def check(ctx):
+    check_journal_position(ctx)
     check_allocator_pair(ctx)
     check_release_len(ctx)
     check_reservation_bits(ctx)
